@@ -1,0 +1,17 @@
+//go:build verif
+
+// Export shim for the external verification harness (/verif, property C17 part B: storage-key
+// injectivity). Compiled only with the build tag `verif`. Thin wrappers that make the unexported
+// put/get storage helpers reachable as black-box key constructors; no contract logic lives here.
+
+package consensus_vote
+
+import "github.com/polynetwork/poly/native"
+
+func VerifPutVoteInfo(native *native.NativeService, id []byte, voteInfo *VoteInfo) {
+	putVoteInfo(native, id, voteInfo)
+}
+
+func VerifGetVoteInfo(native *native.NativeService, id []byte) (*VoteInfo, error) {
+	return getVoteInfo(native, id)
+}
